@@ -191,3 +191,23 @@ package codec
 //@ func (*decoder).decodeOneofInner
 //@   assert at return#1 empty: len(foundKeys) == 0 && constrainType == nil
 //@   assert at return#6 single: len(foundKeys) == 1 && (constrainType != nil ==> foundKeys[0] == *constrainType)
+
+// ---- member separators (C08) -----------------------------------------------------------------------
+// The callbacks that write one member of an object or map each: every member but the first is
+// preceded by exactly one ',', then comes the member's label. (Free variables of a closure are the
+// cells of the captured variables: *first is the flag, *enc the encoder.)
+//@ func (*encoder).encodeObjectBody$1
+//@   opt strings smt
+//@   requires first != nil && enc != nil && *enc != nil && (*enc).b != nil && prop != nil
+//@   ensures sep: result == nil ==> hasPrefix(out(*enc), old(out(*enc)) + (old(*first) ? "" : ",") + jq(fieldName(prop)) + ":")
+//@   ensures flag: !*first
+//@ func (*encoder).encodeMap$1
+//@   opt strings smt
+//@   requires first != nil && enc != nil && *enc != nil && (*enc).b != nil && val != nil
+//@   ensures sep: result == nil ==> hasPrefix(out(*enc), old(out(*enc)) + (old(*first) ? "" : ",") + jq(key) + ":")
+//@   ensures flag: !*first
+//@ func (*encoder).encodeArray$1
+//@   opt strings smt
+//@   requires first != nil && enc != nil && *enc != nil && (*enc).b != nil && prop != nil
+//@   ensures sep: result == nil ==> hasPrefix(out(*enc), old(out(*enc)) + (old(*first) ? "" : ","))
+//@   ensures flag: !*first
